@@ -8,7 +8,7 @@ import tempfile
 PROPERTY = 'C15'
 THEOREMS = ['UseM.task_runs_its_own_request', 'UseM.different_request_not_shared', 'UseM.same_request_same_task',
             'UseM.history_good', 'UseM.make_runs_its_own_request', 'UseM.close_nodup', 'UseM.close_sound',
-            'UseM.close_closed', 'UseM.close_complete', 'UseM.duplicate_names_rejected', 'UseM.c15_pinned_refuted']
+            'UseM.close_closed', 'UseM.close_complete', 'UseM.close_complete_bounded', 'UseM.duplicate_names_rejected', 'UseM.c15_pinned_refuted']
 BUDGET = {'quick': 1500, 'thorough': 30000}
 TIME_LIMIT = {'quick': 50, 'thorough': 600}
 RULE = ('histories (2-12 calls) of Use.from_func(...).get_task() [same-named functions, lambdas, hard/soft, positional/'
